@@ -417,6 +417,21 @@ def r5_drain(toks, counts):
                             j -= 1
                         recv_end = j
                         while j >= 0:
+                            if is_p(out[j], ')'):
+                                # a call in the receiver chain: jump to its opening parenthesis
+                                depth = 0
+                                while j >= 0:
+                                    if is_p(out[j], ')'):
+                                        depth += 1
+                                    elif is_p(out[j], '('):
+                                        depth -= 1
+                                        if depth == 0:
+                                            break
+                                    j -= 1
+                                j -= 1
+                                while j >= 0 and out[j][0] == 'ws':
+                                    j -= 1
+                                continue
                             if out[j][0] == 'id':
                                 p = j - 1
                                 while p >= 0 and out[p][0] == 'ws':
@@ -515,6 +530,73 @@ def r7_visibility(toks, counts):
     return out
 
 
+def r7b_struct_pub(toks, counts):
+    """struct items: the struct and all its fields become `pub` (Verus needs spec-visible fields)"""
+    n = len(toks)
+    k = next_sig(toks, 0)
+    # find the `struct` keyword at depth 0 before any bracket
+    j = k
+    while j < n and not is_id(toks[j], 'struct'):
+        if toks[j][0] == 'p' and toks[j][1] in rtok.OPEN:
+            return toks
+        j += 1
+    if j >= n:
+        return toks
+    ins = set()   # token indices before which `pub ` is inserted
+    p = prev_sig(toks, j - 1)
+    if not (p >= 0 and is_id(toks[p], 'pub')):
+        ins.add(j)
+    # body
+    b = j + 1
+    while b < n and not (toks[b][0] == 'p' and toks[b][1] in '{(;'):
+        b += 1
+    if b < n and toks[b][1] in '{(':
+        close = match_close(toks, b)
+        tuple_struct = toks[b][1] == '('
+        i = b + 1
+        start_of_field = True
+        while i < close:
+            t = toks[i]
+            if t[0] in TRIVIA:
+                i += 1
+                continue
+            if start_of_field:
+                if not is_id(t, 'pub'):
+                    ins.add(i)
+                start_of_field = False
+            if t[0] == 'p' and t[1] in rtok.OPEN:
+                i = match_close(toks, i) + 1
+                continue
+            if is_p(t, '<'):
+                # skip generic arguments (commas inside are not field separators)
+                depth = 0
+                while i < close:
+                    if is_p(toks[i], '<'):
+                        depth += 1
+                    elif is_p(toks[i], '>'):
+                        depth -= 1
+                        if depth == 0:
+                            break
+                    elif toks[i][0] == 'p' and toks[i][1] in rtok.OPEN:
+                        i = match_close(toks, i)
+                    i += 1
+                i += 1
+                continue
+            if is_p(t, ','):
+                start_of_field = True
+            i += 1
+    if not ins:
+        return toks
+    out = []
+    for idx, t in enumerate(toks):
+        if idx in ins:
+            out.append(('id', 'pub'))
+            out.append(('ws', ' '))
+            counts['R7'] = counts.get('R7', 0) + 1
+        out.append(t)
+    return out
+
+
 def r12_context(toks, counts):
     out = []
     i = 0
@@ -592,7 +674,8 @@ def r13_binders(toks, counts, ret_name='r'):
                         if toks[a][0] == 'p' and toks[a][1] in '([':
                             a = match_close(toks, a)
                         a += 1
-                    if a < n and is_p(toks[a], '{'):
+                    if a < n and (is_p(toks[a], '{') or is_p(toks[a], ';')):
+                        # bodiless declarations (trait methods): the `;` goes on its own line too
                         split_at[a] = _line_indent(toks, j)
                         if rs is not None:
                             ret_ranges.append((rs, re_))
@@ -831,6 +914,7 @@ def extract_region(src_text, path, opts=None):
             item = r5_drain(item, counts)
         elif r == 'R7':
             item = r7_visibility(item, counts)
+            item = r7b_struct_pub(item, counts)
         elif r == 'R13':
             item = r13_binders(item, counts)
     if 'R10' in opts.get('rules', ()):
